@@ -559,7 +559,62 @@ def part_own_tags(ctx, res):
     res.count("classes_with_own_tag", len(seen))
 
 
+PAIRS = [
+    # (class, argument given as a pair, the two properties that give the halves back)
+    ("ConnectorShape", "glue_points", ("start_glue_point", "end_glue_point"), [0, 1, 2, 3, 7]),
+    ("ConnectorShape", "p1", ("x1", "y1"), ["0cm", "1.5cm", "-2cm"]),
+    ("ConnectorShape", "p2", ("x2", "y2"), ["0cm", "1.5cm", "-2cm"]),
+    ("LineShape", "p1", ("x1", "y1"), ["0cm", "1.5cm", "-2cm"]),
+    ("LineShape", "p2", ("x2", "y2"), ["0cm", "1.5cm", "-2cm"]),
+    ("RectangleShape", "size", ("width", "height"), ["0cm", "1cm", "2.5cm"]),
+    ("RectangleShape", "position", ("pos_x", "pos_y"), ["0cm", "1cm", "-2.5cm"]),
+    ("EllipseShape", "size", ("width", "height"), ["0cm", "1cm", "2.5cm"]),
+    ("EllipseShape", "position", ("pos_x", "pos_y"), ["0cm", "1cm", "-2.5cm"]),
+]
+
+
+def pair_case(cname, arg, props, a, b):
+    """An argument given as a pair is readable half by half - every value of the domain, the falsy ones (0, '0cm')
+    too - on the new object, after both serialisations and on the clone."""
+    import odfdo
+    from odfdo import Element
+
+    cls = getattr(odfdo, cname)
+    e = cls(**{arg: (a, b)})
+    out = []
+    for how, obj in (("new", e), ("reparsed", Element.from_tag(e.serialize())), ("reparsed-ns", Element.from_tag(e.serialize(with_ns=True))), ("clone", e.clone)):
+        if type(obj) is not cls:
+            out.append((f"pair-argument:{cname}.{arg}:class-lost:{how}", {"got": type(obj).__name__}))
+            continue
+        got = tuple(getattr(obj, p) for p in props)
+        if got != (str(a), str(b)):
+            out.append((f"pair-argument:{cname}.{arg}:dropped-or-altered:{how}", {"given": [a, b], "got": list(got), "xml": obj.serialize()}))
+    return out
+
+
+def part_pairs(ctx, res):
+    import odfdo
+
+    for cname, arg, props, dom in PAIRS:
+        cls = getattr(odfdo, cname, None)
+        if cls is None or not all(hasattr(cls, p) for p in props):
+            res.count("pairs_unavailable")
+            continue
+        for a in dom:
+            for b in dom:
+                res.judge()
+                res.cls(("pair-argument", cname, arg, "falsy" if (not a or not b or a == "0cm" or b == "0cm") else "plain"), True)
+                try:
+                    v = pair_case(cname, arg, props, a, b)
+                except Exception as e:
+                    v = [(f"pair-argument:{cname}.{arg}:raised:{type(e).__name__}", {"exc": repr(e), "given": [a, b]})]
+                for m, d in v[:1]:
+                    res.violation(m, d, {"kind": "pair", "cls": cname, "arg": arg, "props": list(props), "a": a, "b": b})
+
+
 def run(ctx, res):
+    if ctx.shard == 3 % ctx.nshards:
+        part_pairs(ctx, res)
     if ctx.shard == 2 % ctx.nshards:
         part_own_tags(ctx, res)
     if ctx.shard == 0:
@@ -584,6 +639,8 @@ def replay(case):
         back = Element.from_tag(e.serialize())
         if c14n_notail(back._Element__element) != c14n_notail(e._Element__element):
             return [{"mechanism": "content-roundtrip:differs", "detail": {"before": e.serialize()[-300:], "after": back.serialize()[-300:]}}]
+    if case.get("kind") == "pair":
+        return [{"mechanism": m, "detail": d} for m, d in pair_case(case["cls"], case["arg"], tuple(case["props"]), case["a"], case["b"])]
     if case.get("kind") == "dispatch":
         class _Q:
             quick = False
